@@ -36,7 +36,8 @@ REQUIRED_MONITORS = ["rows", "emo_compared", "dipole_compared", "hf_compared", "
                      "rows_ion", "rows_excited", "batchcell_activemix", "batchcell_chargemix", "rows_ground_in_mixed_active_batch",
                      "gap_vs_alone_compared", "rows_dispersion_nonzero", "xl_calls", "xl_calls_krylov",
                      "xl_rows_dm_differs_from_P0", "orbital_pairs_checked", "repeat_calls_with_cycle_of_length_ge3", "orbital_population_rows",
-                     "xl_calls_with_nonzero_entropy", "state_dipole_rows_compared", "state_dipole_alone_vs_batch_compared"]
+                     "xl_calls_with_nonzero_entropy", "state_dipole_rows_compared", "state_dipole_alone_vs_batch_compared", "rows_hf_flag_false",
+                     "xl_rows_hf_flag_false"]
 CASE_TIMEOUT = 600.0
 BUDGET_S = {"quick": float(os.environ.get("VERIF_BUDGET_QUICK", 200)), "thorough": float(os.environ.get("VERIF_BUDGET_THOROUGH", 1500))}
 
@@ -222,6 +223,9 @@ def run_xlcell(case):
                 "xl_rows_with_nonzero_entropy": int(np.sum(np.abs(ent) > 1e-8))})
     for v in b["violations"]:
         v["detail"]["Electronic_entropy"] = ent.tolist()
+    if case.get("hf_flag") is False:
+        mon["rows_hf_flag_false"] = len(rows)
+        mon["xl_rows_hf_flag_false"] = len(rows)
     mon.update({"calls": 2, "xl_calls": 1, "xl_calls_krylov": int(case["xl"] is not None),
                 "xl_rows_dm_differs_from_P0": int(dmax > 1e-6) * len(rows)})
     for v in b["violations"]:
@@ -374,6 +378,23 @@ def gen_cases(tier, seed):
                 cases.append(c)
     cases += _element_cases(g, tier)
     named = _batch_cells(g, tier) + _disp_and_xl_cells(g, tier) + _state_dipole_cells(g, tier)
+    # documented switch of the energy assembly: Hf_flag False -> Hf = Etot - sum Eiso (no atomic heats); Etot / Eelec / Enuc
+    # must not depend on it (twin run with the default)
+    for name, method, layout, mode in (("H2O", "AM1", "single", "autodiff"), ("CH3OH", "PM3", "padded", "analytical"),
+                                       ("NH4+", "MNDO", "homog", "autodiff"), ("CH3.", "AM1", "single", "autodiff"),
+                                       ("CH2O", "PM6_SP", "single", "numerical")):
+        c = c01._lib_case(g, tier, method=method, name=name, layout=layout, sigma=0.05, sp2=False, orient=c01._orient_generic())
+        c.update({"sp2": None, "modes": [mode], "eps": 1e-10, "tier": tier, "hf_flag": False})
+        named.append(c)
+    c = c01._excited_case(g, tier, method="AM1", name="CH2O", xmethod="cis", layout="single")
+    c.update({"modes": ["analytical"], "eps": 1e-10, "tier": tier, "hf_flag": False})
+    named.append(c)
+    for names, charges, method, xlp in ((["CH2O", "H2O"], [0, 0], "AM1", None),
+                                        (["NH4+"], [1], "PM3", {"max_rank": 2, "err_threshold": 0.0, "T_el": 1500.0})):
+        named.append({"kind": "xlcell", "mols": names, "charges": charges, "method": method, "conv": [1], "sp2": None,
+                      "uhf": False, "modes": ["autodiff"], "layout": "single" if len(names) == 1 else "padded",
+                      "orient": {"kind": "generic"}, "xl": xlp, "p0": "neighbour", "seed": int(g.integers(0, 2**31)),
+                      "eps": 1e-10, "hf_flag": False, "tier": tier})
     # repeated calls on molecules with 3-fold degenerate level sets and large kicks, so that the orbital tracker produces
     # permutations with cycles of length >= 3 (where a permutation and its inverse differ)
     # zero-padded batches with mixed heavy / hydrogen counts for the per-orbital population clause
@@ -416,6 +437,8 @@ def _settings(case, eps):
     s["scf_eps"] = float(eps)
     if case.get("do_all_forces"):
         s["do_all_forces"] = True
+    if case.get("hf_flag") is False:
+        s["Hf_flag"] = False
     return s
 
 
@@ -538,6 +561,29 @@ def run_case(case):
         return b
 
     b0 = judge(mol, es, sett, 0)
+    if case.get("hf_flag") is False:
+        mon["rows_hf_flag_false"] = len(rows)
+        twin = dict(case)
+        twin.pop("hf_flag")
+        try:
+            mol_t, es_t, _ = _call(twin, Sx, Cx, qarg, marg, case["eps"])
+        except Exception as e:
+            mol_t = None
+            viol.append({"clause": "default-Hf_flag-run-raised-where-Hf_flag-False-did-not", "mech": None,
+                         "detail": {"error": repr(e)[:300]}})
+        if mol_t is not None:
+            mon["calls"] += 1
+            for k in ("Etot", "Eelec", "Enuc"):
+                d = np.abs(run.npy(getattr(mol, k)).reshape(-1) - run.npy(getattr(mol_t, k)).reshape(-1)).max()
+                mon["hf_flag_twin_compared"] = mon.get("hf_flag_twin_compared", 0) + 1
+                rr = float(d) / 1e-8
+                if not (rr <= margins.get("hf_flag_independence/" + k, -1.0)):
+                    margins["hf_flag_independence/" + k] = rr
+                if not (rr <= 1.0):
+                    viol.append({"clause": "%s-depends-on-Hf_flag" % k, "mech": None,
+                                 "detail": {"max_abs_diff": float(d), "Hf_flag_False": run.npy(getattr(mol, k)).reshape(-1).tolist(),
+                                            "Hf_flag_True": run.npy(getattr(mol_t, k)).reshape(-1).tolist(),
+                                            "species": [r_[0] for r_ in rows]}})
     dip0 = run.npy(getattr(mol, "dipole", None))
     Etot0 = run.npy(mol.Etot).reshape(-1).copy()
     nc0 = np.asarray(run.npy(es.notconverged), bool).reshape(-1) if getattr(es, "notconverged", None) is not None \
